@@ -451,7 +451,7 @@ def r6_display(ctx):
 
 # ---------------------------------------------------------------------------------------------- evaluation (R0)
 
-LITS = ["Hello ", " \u00e9\u2713 ", " > ", "a}b{c=1 ", "100% \"q\" ", "-", "\n  x", "tail\n", "\t"]
+LITS = ["Hello ", " \u00e9\u2713 ", " 1 < 2 ", " > ", "a}b{c=1 ", "100% \"q\" ", "-", "\n  x", "tail\n", "\t"]
 VARS = [("name", "{{ name }}"), ("n2", "{{n2}}"), ("count", "{{  count\t}}")]
 TAGS = [("b", "<b>", "</b>"), ("i", "< i >", "</ i >"), ("b", "<b>", "</b>")]
 
@@ -462,7 +462,7 @@ def _gen_values(thorough):
     import itertools
     lit = [("lit", t) for t in LITS]
     var = [("var", n, src) for n, src in VARS]
-    leaves = lit[:4] + var[:2]
+    leaves = lit[:5] + var[:2]
 
     def comp(tag, children):
         return ("comp", tag, children)
@@ -472,7 +472,7 @@ def _gen_values(thorough):
               comp(TAGS[0], [lit[5], comp(TAGS[0], [lit[1], comp(TAGS[1], [var[2]])]), lit[3]])]
     atoms = lit + var + comps1 + comps2
     seqs = [[x] for x in atoms]
-    some = lit[:3] + var[:2] + comps1[1:4] + comps2[:2]
+    some = lit[:4] + var[:2] + comps1[1:4] + comps2[:2]          # (incl. a literal with a lone `<`, and one with a lone `>`)
     seqs += [list(c) for c in itertools.product(some, repeat=2)]
     tri = lit[:2] + var[:1] + comps1[1:3] + comps2[:1]
     seqs += [list(c) for c in itertools.product(tri, repeat=3)]
